@@ -93,9 +93,7 @@ func runJob(j Job, known []string, scratch string, idx int, mut string) jobResul
 	if j.Covers > 0 {
 		args = append(args, "-covers", strconv.Itoa(j.Covers))
 	}
-	if !j.Race {
-		args = append(args, "-witness")
-	}
+	args = append(args, "-witness")
 	if len(j.Fixes) > 0 {
 		args = append(args, "-fixlist", strings.Join(j.Fixes, ";"))
 	}
